@@ -15,7 +15,7 @@ LEVEL_TEXT = ("Bounded verification by symbolic execution of the real assembly c
 LEVEL_NOTE = ("Bounds: W: m<=3 quick / m<=4 thorough, 2-nt overhangs, replaced position symbolic (every position); E2E: BsaI/BbsI/SapI "
               "quick, all geometries thorough, chain 2, either module replaced. The registry clause (same-type pairs of the bundled "
               "registries) is enumeration of concrete records and is not claimed. Trusted: z3, CPython, symx models.")
-LEVEL_NOTE_EXTRA = "the replacement is presented at every rotation; typed parts with a replacement filed under the same accession while the first assembly's parts are alive."
+LEVEL_NOTE_EXTRA = "the replacement is presented at every rotation; typed parts with a replacement filed under the same accession while the first assembly's parts are alive. Also: a replacement with 12 references and a citing feature; fragments with per-letter values (replacement: none/list/tuple); the first module listed twice in both calls."
 TECHNIQUE = "bounded symbolic execution of the real Python source (symx) with z3; relational (two-run) obligation; replay on the real stack"
 EXPLANATION = "two assemblies on one path; the second differs from the first by one same-signature module; products compared segment-wise"
 ASSUMPTIONS = [
